@@ -58,6 +58,8 @@ func main() {
 			timeOps(o, seed, n)
 		case "go":
 			goOps(o, seed, n)
+		case "gotime":
+			goTimeOps(o, seed, n)
 		case "fenfuzz":
 			fenFuzzOps(o, seed, n, corpus+"/fens.txt")
 		case "hashdiff":
